@@ -230,26 +230,32 @@ where
         cell_key: CellKey,
         vertex: Vertex<K::Scalar, U, D>,
     ) -> Result<FlipInfo<D>, FlipError> {
-        apply_bistellar_flip_k1(&mut self.tds, &self.kernel, cell_key, vertex)
+        self.flip_transaction(|tri| {
+            apply_bistellar_flip_k1(&mut tri.tds, &tri.kernel, cell_key, vertex)
+        })
     }
 
     fn flip_k1_remove(&mut self, vertex_key: VertexKey) -> Result<FlipInfo<D>, FlipError> {
-        apply_bistellar_flip_k1_inverse(&mut self.tds, &self.kernel, vertex_key)
+        self.flip_transaction(|tri| {
+            apply_bistellar_flip_k1_inverse(&mut tri.tds, &tri.kernel, vertex_key)
+        })
     }
 
     fn flip_k2(&mut self, facet: FacetHandle) -> Result<FlipInfo<D>, FlipError> {
         let context = build_k2_flip_context(&self.tds, facet)?;
-        apply_bistellar_flip_k2(&mut self.tds, &self.kernel, &context)
+        self.flip_transaction(|tri| apply_bistellar_flip_k2(&mut tri.tds, &tri.kernel, &context))
     }
 
     fn flip_k3(&mut self, ridge: RidgeHandle) -> Result<FlipInfo<D>, FlipError> {
         let context = build_k3_flip_context(&self.tds, ridge)?;
-        apply_bistellar_flip_k3(&mut self.tds, &self.kernel, &context)
+        self.flip_transaction(|tri| apply_bistellar_flip_k3(&mut tri.tds, &tri.kernel, &context))
     }
 
     fn flip_k2_inverse_from_edge(&mut self, edge: EdgeKey) -> Result<FlipInfo<D>, FlipError> {
         let context = build_k2_flip_context_from_edge(&self.tds, edge)?;
-        apply_bistellar_flip_dynamic(&mut self.tds, &self.kernel, D, &context)
+        self.flip_transaction(|tri| {
+            apply_bistellar_flip_dynamic(&mut tri.tds, &tri.kernel, D, &context)
+        })
     }
 
     fn flip_k3_inverse_from_triangle(
@@ -268,7 +274,33 @@ where
             .checked_sub(1)
             .ok_or(FlipError::UnsupportedDimension { dimension: D })?;
 
-        apply_bistellar_flip_dynamic(&mut self.tds, &self.kernel, k_move, &context)
+        self.flip_transaction(|tri| {
+            apply_bistellar_flip_dynamic(&mut tri.tds, &tri.kernel, k_move, &context)
+        })
+    }
+}
+
+impl<K, U, V, const D: usize> Triangulation<K, U, V, D>
+where
+    K: Kernel<D>,
+    K::Scalar: CoordinateScalar,
+    U: DataType,
+    V: DataType,
+{
+    /// Runs a flip with the crate's usual transactional semantics (snapshot the `Tds`, restore
+    /// it on error), so that a flip which fails after its first mutation (cell insertion,
+    /// neighbor wiring, cell removal, orientation normalisation) leaves the triangulation
+    /// exactly as it was.
+    fn flip_transaction<R>(
+        &mut self,
+        flip: impl FnOnce(&mut Self) -> Result<R, FlipError>,
+    ) -> Result<R, FlipError> {
+        let snapshot = self.tds.clone();
+        let result = flip(self);
+        if result.is_err() {
+            self.tds = snapshot;
+        }
+        result
     }
 }
 
